@@ -10,10 +10,12 @@ import (
 	"os/exec"
 	"path/filepath"
 	"runtime"
+	"runtime/pprof"
 	"sort"
 	"strconv"
 	"strings"
 	"sync"
+	"sync/atomic"
 	"syscall"
 	"testing"
 	"time"
@@ -124,7 +126,31 @@ func workerMain(t *testing.T) {
 	defer out.Flush()
 	start := time.Now()
 	unknownSigs := map[string]bool{}
+	// watchdog: a case executed in this process that never finishes (a dead-locked or spinning
+	// broker keeps a synctest bubble from ever becoming idle) is handed to the driver, which
+	// re-executes it in a child of its own and classifies the hang
+	var lastProgress int64 = time.Now().UnixNano()
+	progress := func(c *Case) {
+		if b, err := json.Marshal(c); err == nil {
+			os.WriteFile(curPath, b, 0644)
+		}
+		atomic.StoreInt64(&lastProgress, time.Now().UnixNano())
+	}
+	if !ck.Isolated {
+		limit := time.Duration(envInt("VERIF_CASE_TIMEOUT_S", 150)) * time.Second
+		go func() {
+			for {
+				time.Sleep(2 * time.Second)
+				if time.Duration(time.Now().UnixNano()-atomic.LoadInt64(&lastProgress)) > limit {
+					os.Stdout.WriteString("\nHUNG\n")
+					pprof.Lookup("goroutine").WriteTo(os.Stderr, 2)
+					os.Exit(3)
+				}
+			}
+		}()
+	}
 	run := func(c *Case) *Outcome {
+		progress(c)
 		if ck.Isolated {
 			return runIsolated(os.Args[0], c)
 		}
@@ -135,9 +161,6 @@ func workerMain(t *testing.T) {
 			break
 		}
 		c := caseFor(ck, seed, tier, i)
-		if b, err := json.Marshal(c); err == nil {
-			os.WriteFile(curPath, b, 0644)
-		}
 		o := run(c)
 		sum.Runs++
 		sum.SimMs += o.SimMs
@@ -187,9 +210,7 @@ func workerMain(t *testing.T) {
 			shrunk := false
 			if os.Getenv("VERIF_NOSHRINK") == "" {
 				if v.Kind == "livelock" || v.Kind == "stalled-on-lock" {
-					childTimeoutOverride = 12 * time.Second
-					m, _ := shrinkCase(c, sig, run, 8)
-					childTimeoutOverride = 0
+					m, _ := shrinkCase(c, sig, func(x *Case) *Outcome { progress(x); return runIsolatedT(os.Args[0], x, 12*time.Second) }, 8)
 					min, shrunk = m, true
 				} else {
 					m, _ := shrinkCase(c, sig, run, 400)
@@ -315,11 +336,11 @@ func replayMain(t *testing.T) int {
 
 // runIsolated executes a case in a child process; a crash of the child with a Go panic is
 // turned into a violation of kind "panic".
-// childTimeoutOverride shortens the watchdog while a hang is being minimised (every attempt that
-// still hangs costs the whole limit).
-var childTimeoutOverride time.Duration
+// runIsolatedT: limit > 0 shortens the watchdog, e.g. while a hang is being minimised (every
+// attempt that still hangs costs the whole limit).
+func runIsolated(bin string, c *Case) *Outcome { return runIsolatedT(bin, c, 0) }
 
-func runIsolated(bin string, c *Case) *Outcome {
+func runIsolatedT(bin string, c *Case, override time.Duration) *Outcome {
 	o := newOutcome()
 	dir := os.Getenv("VERIF_DATA")
 	if dir == "" {
@@ -336,6 +357,9 @@ func runIsolated(bin string, c *Case) *Outcome {
 	defer os.Remove(f.Name())
 	cmd := exec.Command(bin, "-test.run", "^TestEntry$", "-test.timeout", "0")
 	cmd.Env = append(os.Environ(), "VERIF_MODE=one", "VERIF_CASE="+f.Name(), "GOMAXPROCS=1")
+	if c.Build == "lockstep" {
+		cmd.Env = append(os.Environ(), "VERIF_MODE=one", "VERIF_CASE="+f.Name(), "GOMAXPROCS=8")
+	}
 	var stdout, stderr bytes.Buffer
 	cmd.Stdout = &stdout
 	cmd.Stderr = &stderr
@@ -345,8 +369,8 @@ func runIsolated(bin string, c *Case) *Outcome {
 		done := make(chan error, 1)
 		go func() { done <- cmd.Wait() }()
 		limit := time.Duration(envInt("VERIF_CHILD_TIMEOUT_S", 90)) * time.Second
-		if childTimeoutOverride > 0 {
-			limit = childTimeoutOverride
+		if override > 0 {
+			limit = override
 		}
 		select {
 		case err = <-done:
@@ -565,6 +589,7 @@ func driverMain(t *testing.T) int {
 				mu.Lock()
 				defer mu.Unlock()
 				gotSummary := false
+				hungMark := strings.Contains(stdout.String(), "\nHUNG\n")
 				sc := bufio.NewScanner(&stdout)
 				sc.Buffer(make([]byte, 1<<20), 1<<28)
 				for sc.Scan() {
@@ -626,6 +651,30 @@ func driverMain(t *testing.T) int {
 						p := writeReplay(rf)
 						viols = append(viols, violationMsg{Replay: p, V: v})
 						return
+					}
+					if cerr == nil && (hungMark || wctx.Err() != nil) {
+						// the worker got stuck inside a case: re-execute that case in a child and let the
+						// child's watchdog say what kind of hang it is
+						var c Case
+						json.Unmarshal(cb, &c)
+						mu.Unlock()
+						o := runIsolated(bin, &c)
+						mu.Lock()
+						found := false
+						for vi := range o.Violations {
+							v := o.Violations[vi]
+							found = true
+							if kf := matchKnown(known, &v); kf != nil {
+								total.Known[kf.ID]++
+								continue
+							}
+							rf := &ReplayFile{Property: ck.ID, Build: ck.Build, Signature: v.Sig(), Violation: &v, Case: &c, FoundSeed: seed, RunIndex: -k - 1,
+								OrigSteps: len(c.Steps), Note: "found as a hang of a worker process, confirmed by re-executing the case in a child; not minimised"}
+							viols = append(viols, violationMsg{Replay: writeReplay(rf), V: &v})
+						}
+						if found {
+							return
+						}
 					}
 					trouble = true
 					fmt.Fprintf(os.Stderr, "worker %d of %s failed (%v) without an attributable panic:\n%s\n", k, ck.key(), err, tail(all, 6000))
@@ -720,23 +769,23 @@ func driverMain(t *testing.T) int {
 		}
 	}
 	cov := map[string]interface{}{
-		"evaluations":            total.Runs,
-		"distinct_nontrivial":    len(fps),
-		"rule":                   strings.Join(rules, " || "),
-		"samples":                samples,
-		"exhaustive":             false,
-		"runs_per_hour":          int64(float64(total.Runs) / wall * 3600),
-		"sim_seconds_total":      float64(total.SimMs) / 1000,
-		"faults_fired":           faults,
-		"probes":                 probes,
-		"distinct_event_orders":  len(orders),
-		"distinct_state_digests": len(states),
+		"evaluations":             total.Runs,
+		"distinct_nontrivial":     len(fps),
+		"rule":                    strings.Join(rules, " || "),
+		"samples":                 samples,
+		"exhaustive":              false,
+		"runs_per_hour":           int64(float64(total.Runs) / wall * 3600),
+		"sim_seconds_total":       float64(total.SimMs) / 1000,
+		"faults_fired":            faults,
+		"probes":                  probes,
+		"distinct_event_orders":   len(orders),
+		"distinct_state_digests":  len(states),
 		"distinct_coverage_items": len(cover),
-		"real_components":        uniq(real),
-		"stub_components":        uniq(stub),
-		"variants":               perVariant,
-		"instrumentation":        instr,
-		"known_findings_hit":     total.Known,
+		"real_components":         uniq(real),
+		"stub_components":         uniq(stub),
+		"variants":                perVariant,
+		"instrumentation":         instr,
+		"known_findings_hit":      total.Known,
 	}
 	ev := evidence{PropertyID: prop, Tier: tier, Seed: int64(seed), Level: level, Coverage: cov,
 		Assumptions: uniq(assume), WallS: wall, Violations: len(seenSig)}
@@ -756,6 +805,9 @@ func driverMain(t *testing.T) int {
 	sort.Strings(zero)
 	if len(zero) > 0 {
 		fmt.Fprintf(os.Stderr, "warning: probes at zero: %s\n", strings.Join(zero, ", "))
+	}
+	if exit == 1 {
+		return 1 // a violation with its replay file has been reported: that is the result
 	}
 	if trouble {
 		return 2
